@@ -455,7 +455,35 @@ def _gen_L(rng, r, n, pool):
     return L
 
 
-POOL_L8 = [Fr(5, 8), Fr(3, 4), Fr(7, 8), Fr(1), Fr(1), Fr(15, 16)]
+def _float_prefilter(A, e):
+    """cheap float walk (generator side only): (number of swaps, does a row of the initial submatrix re-enter?)"""
+    from scipy.linalg import lu as _lu, solve_triangular as _st
+    A = _fA(A)
+    n, r = A.shape
+    try:
+        Pm, L, U = _lu(A, check_finite=False)
+        I = Pm[:, :r].argmax(axis=0)
+        B = _st(L[:r, :], _st(U, A.T, trans=1, check_finite=False), trans=1, check_finite=False,
+                unit_diagonal=True, lower=True).T
+    except Exception:   # noqa
+        return 0, False
+    if not np.all(np.isfinite(B)):
+        return 0, False
+    ini, sw, re = set(I.tolist()), 0, False
+    for _ in range(200):
+        i, j = divmod(int(np.abs(B).argmax()), r)
+        if abs(B[i, j]) <= e:
+            break
+        re = re or i in ini
+        I[j] = i
+        bi = B[i, :].copy()
+        bi[j] -= 1.0
+        B = B - np.outer(B[:, j], bi / B[i, j])
+        sw += 1
+    return sw, re
+
+
+POOL_L64 = [Fr(k, 64) for k in range(44, 65)]
 POOL_LDY = [Fr(1), Fr(1), Fr(1, 2), Fr(3, 4)]
 POOL_INT = [Fr(x) for x in range(-5, 6)]
 POOL_P2 = [Fr(x) for x in (0, 0, 1, -1, 1, -1, 2, -2, 4, -4)] + [Fr(1, 2), Fr(-1, 2)]
@@ -634,13 +662,16 @@ def correspondence(R, ctx):
     tries = 0
     while len(items) < 40 * mult and tries < 40000 * mult:
         tries += 1
-        r = rng.randint(3, 5 if th else 4)
+        r = rng.choice([3, 4, 4, 5])
         n = rng.randint(r + 2, 3 * r)
-        fam = rng.choice(['L8', 'L8', 'Ldy', 'int'])
-        A = (_gen_L(rng, r, n, POOL_L8) if fam == 'L8' else _gen_L(rng, r, n, POOL_LDY) if fam == 'Ldy'
+        fam = rng.choice(['L64', 'L64', 'L64', 'L64', 'Ldy', 'int'])
+        A = (_gen_L(rng, r, n, POOL_L64) if fam == 'L64' else _gen_L(rng, r, n, POOL_LDY) if fam == 'Ldy'
              else _gen_int(rng, r, n, 'generic', [Fr(x) for x in range(-9, 10)]))
         e = rng.choice(E_DY[:4] if fam == 'Ldy' else E_ANY[:4])
         dist['candidates'] += 1
+        fsw, fre = _float_prefilter(A, float(e))
+        if fsw < 3 or not fre:
+            continue
         try:
             I0, B0, tf, ex = _sim_lu(A)
         except Singular:
